@@ -174,6 +174,8 @@ type interpreter struct {
 	callLog map[*ssa.Function]int // per worker, cumulative
 
 	inInit         int
+	sliceHits      int
+	franges        map[int]frange
 	whyLog         []string
 	model          map[int]uint64 // a model of the current PC (nil = none cached)
 	modelHits      int
@@ -220,11 +222,11 @@ func (i *interpreter) resetPath(prefix []int) {
 	i.nonASCIITotal += i.nonASCII
 	i.nonASCII = 0
 	i.logPoints = nil
+	i.franges = map[int]frange{}
 	i.whyLog = nil
 	i.model = map[int]uint64{}
 	i.ranges = map[int]urange{}
 	i.pcHasF = false
-	i.fstarted = false
 	i.locks = nil
 	i.atomicHook = nil
 	i.known = map[int]bool{}
@@ -263,47 +265,41 @@ func (i *interpreter) assume(c *Term) {
 	} else {
 		i.solver.Assert(c)
 	}
-	if i.fsolver != nil && i.fstarted {
-		i.fsolver.Assert(c)
-	}
 	if i.xsolver != nil {
 		i.xsolver.Assert(c)
 	}
 }
 
-// full returns the solver holding the complete path condition.
-func (i *interpreter) full() *Solver {
-	if !i.pcHasF {
-		return i.solver
-	}
-	return i.fp()
-}
-
-// fp returns the FP-capable solver, starting its scope for this path lazily.
+// fp returns the FP-capable solver process (used only for standalone sliced queries).
 func (i *interpreter) fp() *Solver {
 	if i.fsolver == nil {
 		s, err := NewSolver(i.cfg.FPSolver, i.st, i.cfg.TimeoutMs)
 		if err != nil {
 			i.abort(abortInternal, "cannot start FP solver: "+err.Error())
 		}
-		i.fsolver = s
-	}
-	if !i.fstarted {
-		i.fstarted = true
-		i.fsolver.Push()
-		for _, c := range i.pc {
-			i.fsolver.Assert(c)
+		if i.cfg.LogSMT != "" {
+			f, _ := os.Create(fmt.Sprintf("%s.%s.fp.smt2", i.cfg.LogSMT, i.harnessName))
+			s.Log = f
 		}
+		i.fsolver = s
 	}
 	return i.fsolver
 }
 
-// solverFor picks the solver for a query about c.
-func (i *interpreter) solverFor(c *Term) *Solver {
-	if c.HasF {
-		return i.fp()
+// checkQ decides PC ∧ c. FP-free components go to the incremental BV solver;
+// anything whose variable-connected slice mentions floating point goes through
+// the sliced, cached FP path. On sat a model of the relevant variables may be
+// returned (nil when the BV solver answered; use captureModel then).
+func (i *interpreter) checkQ(c *Term) (string, map[int]uint64, bool) {
+	if !c.HasF && !i.pcHasF {
+		return i.solver.CheckWith(c, false), nil, false
 	}
-	return i.solver
+	_, hasF := i.sliceFor(c)
+	if !hasF {
+		return i.solver.CheckWith(c, false), nil, false
+	}
+	r, m := i.sliceCheck(c)
+	return r, m, true
 }
 
 // noteKnown records truth values implied syntactically by an assumed term.
@@ -313,6 +309,7 @@ func (i *interpreter) noteKnown(c *Term, v bool) {
 	}
 	i.known[c.ID] = v
 	i.learnRange(c, v)
+	i.learnFRange(c, v)
 	switch c.Op {
 	case OpNot:
 		i.noteKnown(c.Args[0], !v)
@@ -450,7 +447,6 @@ func (i *interpreter) decide(c *Term, why string) bool {
 		defer func() { i.whyLog = append(i.whyLog, fmt.Sprintf("#%d %s -> %v", len(i.decisions)-1, why, i.decisions[len(i.decisions)-1])) }()
 	}
 	nc := i.st.Not(c)
-	sv := i.solverFor(c)
 	// the cached model witnesses one side without a query
 	mv, mok := uint64(0), false
 	if i.model != nil {
@@ -461,7 +457,7 @@ func (i *interpreter) decide(c *Term, why string) bool {
 		rt = "sat"
 		i.modelHits++
 	} else {
-		rt = i.checkSide(sv, c, mok) // if the model says ¬c, a sat answer here must refresh the model
+		rt = i.checkSide(c) // a sat answer refreshes the cached model
 	}
 	if rt == "unsat" {
 		i.decisions = append(i.decisions, 0)
@@ -472,7 +468,7 @@ func (i *interpreter) decide(c *Term, why string) bool {
 		rf = "sat"
 		i.modelHits++
 	} else {
-		rf = sv.CheckWith(nc, false)
+		rf, _, _ = i.checkQ(nc)
 	}
 	if rf == "unsat" {
 		i.decisions = append(i.decisions, 1)
@@ -490,20 +486,98 @@ func (i *interpreter) decide(c *Term, why string) bool {
 	return true
 }
 
-// checkSide asks whether PC ∧ c is satisfiable; on sat it captures the model
-// (which then is a model of the PC extended by c).
-func (i *interpreter) checkSide(sv *Solver, c *Term, capture bool) string {
-	r := sv.CheckWith(c, true)
+// checkSide asks whether PC ∧ c is satisfiable; on sat it captures a model of
+// the PC extended by c into the model cache.
+func (i *interpreter) checkSide(c *Term) string {
+	if c.HasF || i.pcHasF {
+		if _, hasF := i.sliceFor(c); hasF {
+			r, m := i.sliceCheck(c)
+			if r == "sat" && m != nil && i.model != nil {
+				// the slice is independent of the rest: overriding its variables keeps a model
+				nm := make(map[int]uint64, len(i.model)+len(m))
+				for k, v := range i.model {
+					nm[k] = v
+				}
+				for k, v := range m {
+					nm[k] = v
+				}
+				i.model = nm
+			}
+			return r
+		}
+	}
+	r := i.solver.CheckWith(c, true)
 	if r != "sat" {
 		return r
 	}
-	if sv == i.full() {
-		if m, err := sv.Model(i.st.Vars); err == nil {
+	if !i.pcHasF {
+		if m, err := i.solver.Model(i.st.Vars); err == nil {
 			i.model = m
 		}
 	}
-	sv.Pop()
+	i.solver.Pop()
 	return r
+}
+
+// fullModel returns sat/unsat/unknown for PC ∧ extra (extra may be nil) and a
+// model of all variables: BV solver for the FP-free constraints, sliced FP
+// queries for every variable-connected component that mentions floating point.
+func (i *interpreter) fullModel(extra *Term) (string, map[int]uint64) {
+	pushed := false
+	if extra != nil && !extra.HasF {
+		i.solver.Push()
+		i.solver.Assert(extra)
+		pushed = true
+	}
+	defer func() {
+		if pushed {
+			i.solver.Pop()
+		}
+	}()
+	r := i.solver.Check()
+	if r != "sat" {
+		return r, nil
+	}
+	m, err := i.solver.Model(i.st.Vars)
+	if err != nil {
+		return "unknown", nil
+	}
+	if !i.pcHasF && (extra == nil || !extra.HasF) {
+		return "sat", m
+	}
+	// FP components: each FP-mentioning constraint (and extra) with its slice
+	done := map[int]bool{}
+	var fcons []*Term
+	for _, p := range i.pc {
+		if p.HasF {
+			fcons = append(fcons, p)
+		}
+	}
+	saved := i.pc
+	if extra != nil {
+		i.pc = append(append([]*Term(nil), i.pc...), extra)
+		if extra.HasF {
+			fcons = append(fcons, extra)
+		}
+	}
+	defer func() { i.pc = saved }()
+	for _, f := range fcons {
+		if done[f.ID] {
+			continue
+		}
+		cons, _ := i.sliceFor(f)
+		for _, c := range cons {
+			done[c.ID] = true
+		}
+		r, fm := i.sliceCheck(f)
+		if r != "sat" {
+			return r, nil
+		}
+		for k, v := range fm {
+			m[k] = v
+		}
+	}
+	return "sat", m
 }
 
 // choose is an unconstrained n-way fork.
@@ -527,16 +601,9 @@ func (i *interpreter) choose(n int, why string) int {
 
 // ---- model extraction ----
 
-func (i *interpreter) modelVector(s *Solver) ([]ReplayVal, map[string]string, error) {
-	var vars []*Term
-	for _, n := range i.nondets {
-		if n.T != nil && n.T.Op == OpVar {
-			vars = append(vars, n.T)
-		}
-	}
-	m, err := s.Model(vars)
-	if err != nil {
-		return nil, nil, err
+func (i *interpreter) modelVector(m map[int]uint64) ([]ReplayVal, map[string]string, error) {
+	if m == nil {
+		return nil, nil, fmt.Errorf("no model")
 	}
 	var out []ReplayVal
 	named := map[string]string{}
@@ -584,10 +651,10 @@ func showBits(b uint64, kind string) string {
 	return fmt.Sprint(b)
 }
 
-func (i *interpreter) recordFinding(kind, msg, site string, s *Solver) {
+func (i *interpreter) recordFinding(kind, msg, site string, m map[int]uint64) {
 	f := Finding{Harness: i.harnessName, Kind: kind, Msg: msg, Site: site,
 		Decisions: append([]int(nil), i.decisions...), NeedsMapOrder: i.usedMapOrder}
-	vec, named, err := i.modelVector(s)
+	vec, named, err := i.modelVector(m)
 	if err != nil {
 		i.unknowns = append(i.unknowns, "model extraction failed: "+err.Error())
 	}
@@ -604,25 +671,20 @@ func (i *interpreter) checkAssert(c *Term, msg string) {
 			return
 		}
 		// constant false on a feasible path: need a model of the PC
-		fs := i.full()
-		r := fs.Check()
+		r, m := i.fullModel(nil)
 		if r == "sat" {
-			i.recordFinding("assert", msg, "", fs)
+			i.recordFinding("assert", msg, "", m)
 		} else if r == "unknown" {
 			i.unknowns = append(i.unknowns, "assert(false) reached, PC unknown: "+msg)
-		} // unsat PC: cannot happen (PC kept feasible)
+		}
 		i.abort(abortStop, "assertion failed: "+msg)
 	}
 	nc := i.st.Not(c)
-	as := i.full()
-	if c.HasF {
-		as = i.fp()
-	}
-	r := as.CheckWith(nc, true)
+	r, _, _ := i.checkQ(nc)
 	switch r {
 	case "unsat":
 		i.solved++
-		if i.xsolver != nil {
+		if i.xsolver != nil && !c.HasF && !i.pcHasF {
 			r2 := i.xsolver.CheckWith(nc, false)
 			if r2 == "sat" {
 				i.unknowns = append(i.unknowns, "SOLVER DISAGREEMENT on: "+msg)
@@ -631,10 +693,14 @@ func (i *interpreter) checkAssert(c *Term, msg string) {
 			}
 		}
 	case "sat":
-		i.recordFinding("assert", msg, "", as)
-		as.Pop()
+		fr, m := i.fullModel(nc)
+		if fr == "sat" {
+			i.recordFinding("assert", msg, "", m)
+		} else {
+			i.unknowns = append(i.unknowns, "violation witness could not be completed to a full model ("+fr+"): "+msg)
+		}
 		// continue under the assertion if still feasible
-		if as.CheckWith(c, false) == "unsat" {
+		if rc, _, _ := i.checkQ(c); rc == "unsat" {
 			i.abort(abortStop, "assertion fails on whole path: "+msg)
 		}
 		i.assume(c)
@@ -807,10 +873,6 @@ func (i *interpreter) runPath(entry *ssa.Function, prefix []int) (res *PathResul
 			res.Sample = i.samplePath()
 		}
 		i.solver.Pop()
-		if i.fsolver != nil && i.fstarted {
-			i.fsolver.Pop()
-		}
-		i.fstarted = false
 		if i.xsolver != nil {
 			i.xsolver.Pop()
 		}
@@ -845,10 +907,9 @@ func (i *interpreter) panicString(v value) string {
 }
 
 func (i *interpreter) onEscapedPanic(res *PathResult) {
-	fs := i.full()
-	r := fs.Check()
+	r, m := i.fullModel(nil)
 	if r == "sat" {
-		i.recordFinding("panic", res.Msg, i.panicSite, fs)
+		i.recordFinding("panic", res.Msg, i.panicSite, m)
 	} else if r == "unknown" {
 		i.unknowns = append(i.unknowns, "panic path with unknown PC: "+res.Msg)
 	}
